@@ -62,6 +62,7 @@ func c11exec(j run.Job, a *run.Acc) {
 			continue
 		}
 		var files []*text.File
+		var readers []*text.Reader
 		var fs *parsley.FileSet
 		if incremental {
 			fs = parsley.NewFileSet()
@@ -101,6 +102,13 @@ func c11exec(j run.Job, a *run.Acc) {
 			}
 			files = append(files, f)
 			pf = append(pf, f)
+			// a reader for every second file is created BEFORE the file joins the set, the others afterwards: both are legal,
+			// and a reader's global positions must be those of its file in the set
+			if i%2 == 0 {
+				readers = append(readers, text.NewReader(f))
+			} else {
+				readers = append(readers, nil)
+			}
 			if incremental {
 				fs.AddFile(f)
 			}
@@ -181,6 +189,20 @@ func c11exec(j run.Job, a *run.Acc) {
 						col++
 					}
 				}
+			}
+			// the file's reader (created before or after the file joined the set) hands out the same global positions
+			if i < len(readers) {
+				rd := readers[i]
+				if rd == nil {
+					rd = text.NewReader(files[i])
+				}
+				for _, off := range []int{0, len(c) / 2, len(c)} {
+					if got := int(rd.Pos(off)); got != pos+off {
+						a.Violate("Reader.Pos", "Reader.Pos", desc(map[string]any{"file": i, "offset": off, "got": got, "want": pos + off, "reader_created_before_the_file_joined_the_set": readers[i] != nil}))
+						break
+					}
+				}
+				a.Count("reader positions checked", 3)
 			}
 			// beyond the file's EOF position the file itself must say unknown
 			if got := files[i].Position(len(c) + 1).String(); got != "unknown" {
@@ -272,7 +294,7 @@ func init() {
 			cov["rule"] = "case = a file set of 0-6 files (each created from a caller buffer that is overwritten right after NewFile), one set in 90 of 15-300 files, one in 90 with a file of 300-70000 pieces (up to tens of thousands of lines, or lines thousands of columns long) (empty files, LF, lone CR, CRLF, CR CR LF, multi-byte runes, no trailing newline), built with NewFileSet(files...) or AddFile, a fifth of them from File objects that were placed in another set before. " +
 				"Oracle: independent layout base_0=1, base_{i+1}=base_i+len_i+1 on the independently CRLF-normalised content, line/column by counting LFs. Every global position 0..last+3 is queried " +
 				"(name:line:col expected, 'unknown' for 0 and for everything past the last file's EOF position; every EOF position belongs to its file), all renderings of distinct (file, offset) must be distinct; " +
-				"File.Pos, File.Len, File.Position are checked directly for every offset. non-trivial = at least two files; distinct = distinct file contents"
+				"File.Pos, File.Len, File.Position are checked directly for every offset, Reader.Pos (readers created before / after the file joined the set) at three offsets per file. non-trivial = at least two files; distinct = distinct file contents"
 			if a.Counters["global positions queried"] == 0 {
 				return "nothing was queried"
 			}
